@@ -36,6 +36,30 @@ def run_batch(cfg, rows, prepare=None, **extra):
         return None, raises(exc)
 
 
+# indicators whose helpers (if any) are built without the tuned parameter, so that the documented way of changing a
+# parameter midway - set the attribute, recalculate() - must give the readings of the new parameter
+RETUNE_OK = ("SMA", "EMA", "RMA", "WMA", "VWMA", "ATR", "Donchian", "HighestLowest", "StandardDeviation", "RSI", "ROC", "AROON")
+
+
+def retune_violation(cfg, rows, prepare, period_from, ind):
+    """build with period_from, calculate, set the final parameters, recalculate(): as_list() must equal that of
+    `ind` (built with the final parameters from the start)"""
+    kw = cfg.get("kw", {})
+    ind0, v0 = run_batch({"cls": cfg["cls"], "kw": dict(kw, period=period_from)}, rows, prepare)
+    if v0 is not None:
+        return None  # the first parameter choice is judged on its own elsewhere
+    try:
+        ind0.period = kw["period"]
+        ind0.recalculate()
+        got0, got = ind0.as_list(), ind.as_list()
+    except Exception as exc:
+        return raises(exc)
+    if got0 != got:
+        k = next((i for i, (a, b) in enumerate(zip(got0, got)) if a != b), 0)
+        return Violation("retuned-readings-differ-from-definition", "recalculate", f"built with period {period_from}, re-tuned to {kw['period']} and recalculated: index {k} reads {got0[k]!r}, a fresh indicator {got[k]!r}")
+    return None
+
+
 def judge_series(field, impl, ref, stats, upto=None):
     """three warm-up/value rules per output field; returns the first Violation or None"""
     n = len(impl) if upto is None else min(upto, len(impl))
